@@ -10,9 +10,28 @@ pub fn run() -> Value {
         ("Debug-alt(Credentials)", format!("{c:#?}")),
         ("serde_json(SecretKey)", serde_json::to_string(&k).unwrap_or_default()),
     ];
+    // short secrets (a rendering that masks "all but the last few characters" shows them whole) and partial leaks: no rendering may
+    // contain a short secret, nor any 6 consecutive characters of the long one
+    let mut outs = outs;
+    for short in ["Zq7#", "x9", "p"] {
+        let k2 = s3s::auth::SecretKey::from(short);
+        let c2 = s3s::auth::Credentials { access_key: "AKIAEXAMPLE".into(), secret_key: k2.clone() };
+        for (what, text) in [("Debug(SecretKey, short)", format!("{k2:?}")), ("Debug(Credentials, short)", format!("{c2:?}")), ("Debug-alt(Credentials, short)", format!("{c2:#?}"))] {
+            // the access key and the type / field names contain none of these
+            if text.replace("AKIAEXAMPLE", "").replace("SENSITIVE-SECRET-KEY", "").replace("access_key", "").contains(short) && short.len() >= 2 {
+                return json!({"violates": true, "input": {"secret": short, "rendering": what}, "expected": "the secret does not appear", "observed": text, "replay_args": ["secret"]});
+            }
+        }
+    }
+    for (what, text) in outs.iter() {
+        let sb = secret.as_bytes();
+        let text = text.replace("AKIAEXAMPLE", "");
+        if sb.windows(6).any(|w| text.contains(std::str::from_utf8(w).unwrap())) {
+            return json!({"violates": true, "input": {"secret": "(46 characters)", "rendering": what}, "expected": "no 6 consecutive characters of the secret appear", "observed": text, "replay_args": ["secret"]});
+        }
+    }
     // loading: serde_json texts for a SecretKey — well-formed, padded with blanks / a line feed, empty, of a wrong JSON type after a
     // string prefix, truncated — every error text (Display and Debug) is searched for the secret too
-    let mut outs = outs;
     for (what, doc) in [
         ("plain", format!("\"{secret}\"")), ("trailing line feed", format!("\"{secret}\\n\"")), ("leading blank", format!("\" {secret}\"")),
         ("trailing blanks", format!("\"{secret}  \"")), ("empty", "\"\"".to_owned()), ("unterminated", format!("\"{secret}")),
